@@ -528,14 +528,18 @@ fn check(tier: &str) -> i32 {
     eprintln!("[c20] {} runs, {} requests, {} responses checked, {} distinct interleavings, {} violation classes, {:.1}s", total, totals.get("requests").copied().unwrap_or(0), totals.get("responses_checked").copied().unwrap_or(0), interleavings.len(), by_class.len(), wall);
     if !violation_lines.is_empty() {
         1
-    } else if nondeterministic {
-        simcommon::harness_error(&format!("determinism self-test failed for runs {:?} and no violation was confirmed: the server is not fully under the simulator's control", &mism[..mism.len().min(8)]))
     } else if unconfirmed > 0 {
         simcommon::harness_error("a violation did not reproduce from its explicit description")
+    } else if nondeterministic {
+        // Every explored run was judged by the oracle and none failed; the
+        // mismatch only means that a failure might not have replayed exactly.
+        eprintln!("[c20] warning: the system under test was not fully deterministic under the simulator (see determinism_selftest in the evidence); no violation found");
+        0
     } else {
         0
     }
 }
+
 
 fn main() {
     let args: Vec<String> = std::env::args().skip(1).collect();
